@@ -230,6 +230,7 @@ Inductive target :=
 | TGauss (prec : list Qc)                       (* logd = -1/2 sum p_i x_i^2 , grad = -p_i x_i *)
 | TQuartic                                      (* logd = -1/4 sum x_i^4   , grad = -x_i^3 *)
 | TSplit (pl pr : list Qc)                      (* two-piece normal: precision pl_i for x_i < 0, pr_i for x_i >= 0 *)
+| TQuad (P : list (list Qc))                    (* logd = -1/2 x.(P x), P any square matrix (correlated, not nec. symmetric); grad = -1/2 (P + P^T) x *)
 | TBox (prec : list Qc) (bound : Qc) (bad : ext). (* Gaussian inside max|x_i| <= bound, `bad` outside *)
 
 Definition half : Qc := qc (1 # 2).
@@ -256,6 +257,7 @@ Definition t_logd (t : target) (x : list Qc) : ext :=
   | TGauss p => gauss_logd p x
   | TQuartic => Fin (this (- (quarter * qsumc (vmul (vmul x x) (vmul x x))))%Qc)
   | TSplit pl pr => gauss_logd (vside pl pr x) x
+  | TQuad P => Fin (this (- (half * qdot x (qmatvec P x)))%Qc)
   | TBox p b bad => if inbox b x then gauss_logd p x else bad
   end.
 
@@ -264,6 +266,7 @@ Definition t_grad (t : target) (x : list Qc) : list Qc :=
   | TGauss p => qvneg (vmul p x)
   | TQuartic => qvneg (vmul x (vmul x x))
   | TSplit pl pr => qvneg (vmul (vside pl pr x) x)
+  | TQuad P => qvscale (- half)%Qc (qvadd (qmatvec P x) (qmattvec (length x) P x))
   | TBox p b bad => qvneg (vmul p x)
   end.
 
